@@ -132,3 +132,25 @@ CHECKS["C19"] = {
                         "negative_opt_codec", "negative_src_add_node", "negative_stray_file", "negative_frag_flip", "negative_frag_swap"],
     "vacuity_counter": "resume_completed",
 }
+
+CHECKS["C20"] = {
+    "engine": "storage",
+    "harness": "c20",
+    "packages": ["retriever"],
+    "rules": "fs",
+    "fsnames": FSNAMES,
+    "level": "fault_enumeration",
+    "budget": {"quick": 40, "thorough": 1200},
+    "gomaxprocs": "1",
+    "rule": "one evaluation = one consumer call on one mutated artefact. Per seeded workload a small dump is produced in every shape (directory, plain tar, encrypted archive with key pair, key envelopes) and then either 30 sampled mutations or a full position sweep (every byte offset x one seeded bit, every truncation length) of one artefact/consumer pair are applied: fragment byte/truncate/extend/swap/remove, manifest byte/truncate and structured field edits (count, compressed_bytes, sha256, path, phase, codec, graph_count, node_count, metrics dropped/edited), archive byte/truncate/extend, frame swap/duplicate/drop/drop-final/type flip, wrong key, reader error after n bytes, hostile tar entries (absolute, parent, volume, backslash, blank-padded, symlink, hardlink, directory, device, fifo, duplicates, PAX long names) placed at any entry position, tampered collections inside a correctly encrypted archive, malformed key envelopes; consumers Load(dir), UnpackTar->Load, UnpackEncryptedCollectionArchive, Unpack (output dir absent/empty/non-empty+force), Load(ArchiveReader), ReadArchivePrivateKey/PublicKey. "
+            "Every case injects a fault; distinct = distinct (workload, consumer, mutation, position) hashes, union over workers.",
+    "real": ["retriever Load / verifyLoadFragments / manifest validation", "UnpackTar, sanitizeArchivePath", "encrypted archive reader/writer (HPKE frames)", "Unpack staging/promotion", "key envelope readers", "archive/tar, crypto/hpke, gzip, zstd"],
+    "stubs": ["simos (containment of every mutating call, allowed root = the requested output directory's parent sandbox)", "simdb (mutation log = 'before any node or relationship is written')", "fault-injecting io.Reader"],
+    "assumptions": STOR_ASSUME + [
+        "H2 (must reject) is demanded for content the format authenticates: fragment bytes; manifest counts, compressed_bytes, sha256, paths, phase, codec, graph_count, metrics block; every byte, truncation and frame permutation of an encrypted archive; wrong or malformed keys",
+        "for manifest bytes nothing authenticates (whitespace, generated_at, uncompressed_bytes, action counts, display names ...) the oracle is H3: a nil return only with a loaded graph whose content equals the source (graph names may differ)",
+        "a plain tar stream is not authenticated: UnpackTar->Load is judged as a pipeline (some step fails before any write, or the right graph is loaded)",
+        "no-partial-output (H5) is asserted for the staged entry points Unpack and Load(ArchiveReader); the direct extractors get containment and reject-before-write only",
+    ],
+    "expected_probes": ["rejected", "accepted_with_correct_graph", "full_position_sweeps", "hostile_symlink", "hostile_parent", "hostile_absolute", "unpack_frame_swap", "loadarchive_wrongkey", "loaddir_mf_sha", "key_swaptype"],
+}
